@@ -11,7 +11,7 @@ def cfg(wd, name, body):
 
 def corpus(c, depth2, depth3):
     wd = c.wd
-    r = vlib.tlc("MC_TypeExpr", cfg(wd, "MC_TypeExpr.cfg", "CONSTANTS Depth2 = %s Depth3 = %s\nSPECIFICATION Spec\nINVARIANT NFIdempotent Coherent C17_NoPhantomMember ClosedUnderChildren Emit\nCHECK_DEADLOCK FALSE\n" % (("TRUE" if depth2 else "FALSE"), ("TRUE" if depth3 else "FALSE"))), wd, workers=4, heap="6g")
+    r = vlib.tlc("MC_TypeExpr", cfg(wd, "MC_TypeExpr.cfg", "CONSTANTS Depth2 = %s Depth3 = %s\nSPECIFICATION Spec\nINVARIANT NFIdempotent Coherent C17_NoPhantomMember ClosedUnderChildren Emit\nCHECK_DEADLOCK FALSE\n" % (("TRUE" if depth2 else "FALSE"), ("TRUE" if depth3 else "FALSE"))), wd, workers=4, heap="6g", stack=True)
     if not r.ok: raise vlib.ToolError("TypeExpr design check failed: " + "\n".join(r.errors[:3]) + r.out[-1500:])
     cases = r.lines("CASE")
     if len(cases) != r.distinct: raise vlib.ToolError("expression emission incomplete: %d of %d" % (len(cases), r.distinct))
